@@ -135,6 +135,27 @@ class PropertyRun:
             self.violations.append({'obligation': f'{self.pid}.{tag}', 'backend': 'verus', 'message': f['message'],
                                     'detail': '\n'.join(x['rendered'] for x in fs)[:6000], 'unit': name,
                                     'pair': (u.spec.get('pair', {}) or {}).get(tag.split('.', 1)[-1])})
+        # frame scans: a representation invariant proved on the functions that write a field carries to the
+        # whole file only if nothing else writes it; every mention of the field must have a listed shape.
+        for fr in u.spec.get('frame', []):
+            from vx.rustsrc import mask
+            src = open(os.path.join(REPO, fr['file'])).read()
+            mk = mask(src).splitlines()
+            raw = src.splitlines()
+            pat = re.compile(fr['mentions'])
+            allowed = [re.compile(a) for a in fr['allowed']]
+            hits, bad = 0, []
+            for ln, (m, r) in enumerate(zip(mk, raw), 1):
+                if pat.search(m):
+                    hits += 1
+                    if not any(a.search(r.strip()) for a in allowed):
+                        bad.append(f'{fr["file"]}:{ln}: {r.strip()}')
+            if bad:
+                self.undecided.append(f'verus unit {name}: frame scan "{fr.get("what", fr["mentions"])}" found a use of the field with no listed shape, the invariant no longer carries to the file: ' + '; '.join(bad[:4]))
+            elif hits < fr.get('min_hits', 1):
+                self.undecided.append(f'verus unit {name}: frame scan "{fr.get("what", fr["mentions"])}" found {hits} mentions (lost anchor)')
+            else:
+                self.notes.append(f'frame scan {name}: {hits} mentions of /{fr["mentions"]}/ in {fr["file"]}, all of a listed shape ({fr.get("what", "")})')
         # variants: canaries must fail; known-finding probes
         for vn, (res, v) in results.items():
             if v is None:
